@@ -62,7 +62,7 @@ def section6(known):
             out.append(wrap("* **%s** (`%s`, signature %s) — %s" % (k["property"], k["key"], k["signature"], k["what"]), indent="  ")[2:])
             out[-1] = "* " + out[-1][2:] if out[-1].startswith("  ") else out[-1]
     out.append("\nWhy they are not repaired: C05 (`random()` can equal `max` through binary64 rounding at one state: a repair changes every stream or adds a re-draw — a maintainer's decision); "
-               "C17 (stale index after insert, `copy()` sharing column lists: repairs change the Table's cost model / API contract); C15 (an ambiguous single-action PMF column format); "
+               "C17 (stale index after insert, `copy()` sharing column lists: repairs change the Table's cost model / API contract); C04 (writing the params after the read would make `save()` on an existing file of an unread supervised environment report a mismatch: the two sides of that comparison have to change together); C15 (an ambiguous single-action PMF column format); "
                "C07/C02 (an evaluation with zero rows has no representation in the packed record: needs a format change); C12 (a quoted `'?'` loses its quoting inside the csv module; the "
                "tab/comma ambiguity is inherent to delimiter sniffing); C08 (`None` is the pill of the output queue: needs a sentinel object that survives pickling).\n")
     out.append("### Repaired (`fix:` commits in `/repo`, oldest first)\n")
